@@ -15,7 +15,7 @@ def jobs(tier, ctx):
         add('F_ADD', ['ARRM', 'ARRM'], oracle=['LIMIT'], extra_defs=['LENK0=%d' % l0, 'LENK1=%d' % l1], tag='len%d_%d' % (l0, l1), mem=12, typed_arrays=8)
     # x += x on an array with exactly two references (the in-place doubling path of add_array)
     for l0 in ((1, 2) if tier == 'quick' else (1, 2, 3)):
-        add('F_ADD_EQ', ['ARRM', 'LVSELF'], oracle=['LIMIT'], extra_defs=['LENK0=%d' % l0], tag='self.len%d' % l0, mem=12, typed_arrays=8)
+        add('F_ADD_EQ', ['ARRM', 'LVSELF'], oracle=['LIMIT'], extra_defs=['LENK0=%d' % l0], tag='self.len%d' % l0, mem=12, typed_arrays=8, unwind=(10 if l0 >= 3 else None))
     for (jm, bits, nfr, npu) in [(0, 0, 0, 0)] + [(1, b, f, f) for b in range(4) for f in (0, 2)]:
       out.append(dict(name='catch_limits.j%d_b%d_f%d' % (jm, bits, nfr), defs=['JMP=%d' % jm, 'BITS=%d' % bits, 'NFR=%d' % nfr, 'NPU=%d' % npu], srcs=['@harness/C04/catch_limits.c', 'src/frame.c', 'src/stack.c', 'lib/lpc/svalue.c', 'src/stralloc.c', 'lib/misc/hash.c'],
                     stubs=['@world/world_base.c', '@world/libc_models.c', '@world/vm_world.c', '@world/world_err.c', '@harness/C05/stubs.c'],
